@@ -10,9 +10,11 @@ TraceStep ==
   /\ l <= Len(TraceLog)
   /\ LET ev == TraceLog[l] IN
      /\ ev.e = "SaveFault"
-     /\ SaveUnderFault(ev.kind, ev.k, ev.ref_len)
+     \* where the disk is observable it must be what the spec allows; elsewhere (-1 = no file) is the witness. Bound before the
+     \* action so that TLC checks membership instead of enumerating every disk length up to the file size
+     /\ disk' = (IF ev.kind \in {"none", "fsize"} THEN ev.disk_len ELSE -1)
      /\ outcome' = ev.out                         \* the recorded outcome class must be the specified one
-     /\ disk' = (IF ev.kind \in {"none", "fsize"} THEN ev.disk_len ELSE disk')   \* where the disk is observable, it is what the spec allows
+     /\ SaveUnderFault(ev.kind, ev.k, ev.ref_len)
      /\ (ev.out = "ok" => ev.prefix_ok = 1)       \* a normal return: the bytes on the disk are the fault-free bytes (a failed save
                                                   \* may leave anything: the writer back-patches earlier bytes at the end)
   /\ l' = l + 1
